@@ -51,6 +51,43 @@ func lbvcRenderLive(s *Server) string {
 	return strings.Join(out, "\n")
 }
 
+// lbvcGroupAssignments renders who owns which partition in a group (read directly from the group's state).
+func lbvcGroupAssignments(g *consumerGroup) string {
+	g.mu.RLock()
+	defer g.mu.RUnlock()
+	var out []string
+	for id, m := range g.members {
+		var as []string
+		for stream, parts := range m.assignments {
+			ps := append([]int32{}, parts...)
+			sort.Slice(ps, func(i, j int) bool { return ps[i] < ps[j] })
+			as = append(as, fmt.Sprintf("%s%v", stream, ps))
+		}
+		sort.Strings(as)
+		out = append(out, fmt.Sprintf("%s:%v", id, as))
+	}
+	sort.Strings(out)
+	return strings.Join(out, " ")
+}
+
+// lbvcRestoredAssignments rebuilds a group the way Restore does - newConsumerGroup over the member list stored in the
+// snapshot - once with the list as stored and once reversed (Snapshot takes the list from a Go map, so any order can
+// be in a snapshot) and returns the assignments of both.
+func lbvcRestoredAssignments(s *Server, pg *proto.ConsumerGroup) (asStored, reversed string) {
+	build := func(members []*proto.Consumer) string {
+		cp := *pg
+		cp.Members = members
+		g := newConsumerGroup(s.config.Clustering.ServerID, time.Hour, &cp, false, s.logger, func(string, string) error { return nil }, s.metadata.countStreamPartitions)
+		defer g.Close()
+		return lbvcGroupAssignments(g)
+	}
+	rev := make([]*proto.Consumer, len(pg.Members))
+	for i, m := range pg.Members {
+		rev[len(pg.Members)-1-i] = m
+	}
+	return build(pg.Members), build(rev)
+}
+
 func lbvcRenderSnapshot(snap *proto.MetadataSnapshot) string {
 	var out []string
 	for _, st := range snap.Streams {
@@ -148,6 +185,7 @@ func TestLbvcBoundedSnapshot(t *testing.T) {
 	evaluations := 0
 	states := map[string]bool{}
 	bad := ""
+	knownSeen := false
 	for _, st := range steps {
 		if err := st.do(); err != nil {
 			continue // an operation the server refuses is not part of the history
@@ -164,6 +202,31 @@ func TestLbvcBoundedSnapshot(t *testing.T) {
 		states[live] = true
 		if live != stored {
 			bad = fmt.Sprintf("after %q the snapshot does not hold the live metadata: %s", st.name, lbvcFirstDiff(live, stored))
+			break
+		}
+		// who owns which partition must survive a restore from this snapshot, whatever order the member list has
+		for _, pg := range snap.(*fsmSnapshot).MetadataSnapshot.Groups {
+			lg := s1.metadata.GetConsumerGroup(pg.Id)
+			if lg == nil {
+				continue
+			}
+			liveAs := lbvcGroupAssignments(lg)
+			a, b := lbvcRestoredAssignments(s1, pg)
+			evaluations++
+			if a != liveAs || b != liveAs {
+				const key = "group-assignments-not-restored"
+				msg := fmt.Sprintf("after %q: group %s epoch %d hands out %q; a group rebuilt from the snapshot's member list hands out %q (list as stored) / %q (list reversed) for the same epoch", st.name, pg.Id, pg.Epoch, liveAs, a, b)
+				if strings.Contains(";"+os.Getenv("LBVC_KNOWN_CASES")+";", ";"+key+";") {
+					if !knownSeen {
+						knownSeen = true
+						fmt.Printf("LBVC-BOUNDED-KNOWN %s: %s\n", key, msg)
+					}
+				} else if bad == "" {
+					bad = "[" + key + "] " + msg
+				}
+			}
+		}
+		if bad != "" {
 			break
 		}
 	}
